@@ -17,6 +17,8 @@ CARRIERS = {
     'C': dict(table='TableG1', bc=0.759, mv_fps=3051.0, sight_in=0.0, zero_yd=None, weight=1667.0, diameter=0.9, length=4.26, twist=0.0),
     # a bullet WITHOUT dimensions (no length / diameter) in a rifled barrel: no spin drift may appear
     'E': dict(table='TableG7', bc=0.223, mv_fps=2750.0, sight_in=2.0, zero_yd=100.0, weight=168.0, diameter=0.0, length=0.0, twist=12.0),
+    # slow projectile launched just below a nearest-node boundary of the drag table (Mach 0.2737 at 8000 ft; boundary 0.275): accelerating downhill it crosses it upwards
+    'F': dict(table='TableG7', bc=0.1, mv_fps=297.0, sight_in=1.0, zero_yd=None, weight=100.0, diameter=0.3, length=1.0, twist=10.0),
     # slow projectile: minimum velocity / altitude limits
     'D': dict(table='TableG7', bc=0.1, mv_fps=300.0, sight_in=1.0, zero_yd=None, weight=100.0, diameter=0.3, length=1.0, twist=10.0),
 }
